@@ -34,6 +34,7 @@ var c02RespCorpus = []string{
 	"HTTP/1.1 200 OK\r\nTransfer-Encoding: chunked\r\nTrailer: X-T\r\n\r\n3\r\nabc\r\n2\r\nde\r\n0\r\nX-T: v\r\n\r\n",
 	"HTTP/1.1 100 Continue\r\n\r\nHTTP/1.1 204 No Content\r\nX-A: b\r\n\r\n",
 	"HTTP/1.1 200 OK\r\nX-Fold: a\r\n b\r\nX-After: z\r\nContent-Length: 2\r\n\r\nok",
+	"HTTP/1.1 200 OK\r\nx-fold: one\r\n two\r\n\tthree\r\n four\r\ncontent-length: 2\r\nX-After: z\r\n\r\nok",
 	"HTTP/1.1 200 OK\r\nSet-Cookie: a=b; Path=/\r\nSet-Cookie: c=d\r\nConnection: close\r\n\r\nuntil-close-body",
 	"HTTP/1.1 304 Not Modified\r\nContent-Length: 10\r\n\r\n",
 	"HTTP/1.1 200 OK\r\nContent-Length: 5\r\n\r\nhel",
@@ -41,8 +42,11 @@ var c02RespCorpus = []string{
 	"HTTP/1.1 200\r\nContent-Length: x\r\n\r\n",
 }
 
-func c02ClientObs(frags [][]byte) string {
+func c02ClientObs(frags [][]byte, noNorm ...bool) string {
 	var r protocol.Response
+	if len(noNorm) > 0 && noNorm[0] { // a client with DisableHeaderNamesNormalizing
+		r.Header.DisableNormalizing()
+	}
 	sc := newScriptConn(frags)
 	conn := standard.NewConnForVerif(sc, 4096)
 	err := resp.Read(&r, conn)
@@ -84,7 +88,7 @@ func init() {
 		// in: stream, split spec ("2:<k>" two-way at k, "1" bytewise, "r:<seed>:<k>" random k-way), streaming
 		Check: func(t *T, in In) []Finding {
 			wire := in.B(0)
-			cfg := pipeCfg{streaming: in.N(2) == 1, maxBody: 0}
+			cfg := pipeCfg{streaming: in.N(2)&1 == 1, maxBody: 0, noNorm: in.N(2)&2 != 0} // bit 1: DisableHeaderNamesNormalizing
 			whole := obsClass(runPipe([][]byte{wire}, cfg))
 			var frags [][]byte
 			spec := in.S(1)
@@ -135,8 +139,9 @@ func init() {
 						}
 					}
 					t.Do(In{H(w), S("1"), Nn(st)}, true)
+					t.Do(In{H(w), S("1"), Nn(st + 2)}, true)
 					for j := 0; j < 5; j++ {
-						t.Do(In{H(w), S(fmt.Sprintf("r:%d:%d", t.R.Intn(1<<30), 2+t.R.Intn(6))), Nn(st)}, true)
+						t.Do(In{H(w), S(fmt.Sprintf("r:%d:%d", t.R.Intn(1<<30), 2+t.R.Intn(6))), Nn(st + 2*(j%2))}, true)
 					}
 				}
 			}
@@ -145,7 +150,8 @@ func init() {
 	register(&Unit{Name: "c02.client", Props: []string{"C02"},
 		Check: func(t *T, in In) []Finding {
 			wire := in.B(0)
-			whole := c02ClientObs([][]byte{wire})
+			noNorm := len(in) > 2 && in.N(2) == 1
+			whole := c02ClientObs([][]byte{wire}, noNorm)
 			var frags [][]byte
 			spec := in.S(1)
 			switch {
@@ -161,7 +167,7 @@ func init() {
 				fmt.Sscanf(spec, "r:%d:%d", &seed, &k)
 				frags = fragRandom(rand.New(rand.NewSource(seed)), wire, k)
 			}
-			if got := c02ClientObs(frags); got != whole {
+			if got := c02ClientObs(frags, noNorm); got != whole {
 				return []Finding{{Kind: "oracle", Unit: "c02.client", Class: "segmentation-changes-the-response", Impl: truncate(got, 400), Expect: truncate(whole, 400)}}
 			}
 			return nil
@@ -175,12 +181,14 @@ func init() {
 				streams = append(streams, c03Mutate(t, []byte(c02RespCorpus[t.R.Intn(len(c02RespCorpus))]), toks("\r\n", "\n", " ", ":", "\r\n ", "0", "Content-Length: 3", "chunked")))
 			}
 			for _, w := range streams {
-				for k := 1; k < len(w); k++ {
-					t.Do(In{H(w), S(fmt.Sprintf("2:%d", k))}, true)
-				}
-				t.Do(In{H(w), S("1")}, true)
-				for j := 0; j < 5; j++ {
-					t.Do(In{H(w), S(fmt.Sprintf("r:%d:%d", t.R.Intn(1<<30), 2+t.R.Intn(6)))}, true)
+				for nn := 0; nn < 2; nn++ { // header names normalised (default) and kept as received
+					for k := 1; k < len(w); k++ {
+						t.Do(In{H(w), S(fmt.Sprintf("2:%d", k)), Nn(nn)}, true)
+					}
+					t.Do(In{H(w), S("1"), Nn(nn)}, true)
+					for j := 0; j < 5; j++ {
+						t.Do(In{H(w), S(fmt.Sprintf("r:%d:%d", t.R.Intn(1<<30), 2+t.R.Intn(6))), Nn(nn)}, true)
+					}
 				}
 			}
 		}})
